@@ -16,12 +16,22 @@ class _Undef:
 UNDEF = _Undef()
 
 
+class _Any:
+    def __repr__(self):
+        return "ANY"
+
+
+ANY = _Any()     # some non-null value the specification does not compute (transcendental functions)
+
+
 def spec_value(v):
     """JSON value emitted by TLC -> python value (None, bool, int, Fraction, str)."""
     if v == "NULL":
         return None
     if v == "UNDEF":
         return UNDEF
+    if v == "ANY":
+        return ANY
     if isinstance(v, list):      # text as a sequence of code points
         return "".join(chr(c) for c in v)
     if isinstance(v, dict) and set(v) == {"n", "d"}:
@@ -135,7 +145,20 @@ def compare_rows(expected, actual, tys, cls):
 
 
 def has_undef(rows):
-    return any(v is UNDEF for r in rows for v in r)
+    return any(v is UNDEF or v is ANY for r in rows for v in r)
+
+
+def cell_eq(ev, av, ty):
+    """cell comparison of the aligned (operator table) mode: floats with relative tolerance 1e-9"""
+    if ev is ANY:
+        return av is not None and not (isinstance(av, float) and math.isnan(av))
+    if ty == "float" and ev is not None and av is not None:
+        try:
+            a, b = float(ev), float(av)
+        except (TypeError, ValueError):
+            return False
+        return abs(a - b) <= 1e-9 * max(1.0, abs(a), abs(b))
+    return canon(ev, ty) == canon(av, ty)
 
 
 def compare_aligned(expected, actual, tys, key):
@@ -154,7 +177,7 @@ def compare_aligned(expected, actual, tys, key):
         for i, (ev, av) in enumerate(zip(er, ar)):
             if ev is UNDEF:
                 continue
-            if canon(ev, tys[i] if tys else None) != canon(av, tys[i] if tys else None):
+            if not cell_eq(ev, av, tys[i] if tys else None):
                 bad.append((er[key], i, ev, av, [x for j, x in enumerate(er) if j != i and x is not UNDEF][:6]))
     if bad:
         return ("rows", "cells differ (key, column index, expected, got, row): " + "; ".join(map(str, bad[:5])) + f" ... {len(bad)} cell(s)")
